@@ -103,7 +103,7 @@ def isclose(a, b):
     return abs(a - b) <= 1e-8 + 1e-5 * abs(b)
 
 
-def expected_slice(pf, comps, cn, pos, L, per_level=False):
+def expected_slice(pf, comps, cn, pos, L, per_level=False, lenient=False):
     """Independent evaluation of the statement: per pixel of the level-L grid, each side takes the finest level <= L
     offering a stored cell-centre sample on that side of the plane at that pixel; output = linear interpolation."""
     cx, cy = [d for d in range(3) if d != cn]
@@ -130,7 +130,12 @@ def expected_slice(pf, comps, cn, pos, L, per_level=False):
         f = 2 ** (L - lv)
         lvres = {"left": np.full(shp + (len(comps),), np.nan), "right": np.full(shp + (len(comps),), np.nan),
                  "zl": np.full(shp, np.nan), "zr": np.full(shp, np.nan)}
-        for side, k in (("l", kl), ("r", kr)):
+        sides = [("l", kl), ("r", kr)]
+        if lenient and hit:
+            # the position is a centre plane of this level: where the level has no box on that plane but has one on the plane one
+            # cell further on a side, that stored sample is the level's nearest sample of that side (also "bracketing the plane")
+            sides = ([("l", kl - 1)] if kl - 1 >= 0 else []) + ([("r", kr + 1)] if kr + 1 < n else []) + sides
+        for side, k in sides:
             idx = [slice(None)] * 3
             idx[cn] = k
             plane_owner = own[lv][tuple(idx)]          # (n_cx, n_cy) at level lv
@@ -261,8 +266,15 @@ def run_slice_scenario(p, wd):
                     if np.isnan(got).any():
                         bad = f"field {f}: {int(np.isnan(got).sum())} pixels come from uninitialised memory"
                         break
-                    if not np.allclose(got, e, rtol=1e-10, atol=1e-12):
-                        d = np.argwhere(~np.isclose(got, e, rtol=1e-10, atol=1e-12))[0]
+                    okpix = np.isclose(got, e, rtol=1e-10, atol=1e-12)
+                    if not okpix.all():
+                        # a position on a centre plane of a level that has no box there at some pixels: the statement's "two
+                        # stored samples that bracket the plane, from the finest level that has data there" admits that level's
+                        # next sample one cell further on a side; either reading is accepted, pixel by pixel
+                        exp2, _ = expected_slice(pf, comps, cn, real_pos, L, lenient=True)
+                        okpix = okpix | np.isclose(got, exp2[..., i].T, rtol=1e-10, atol=1e-12)
+                    if not okpix.all():
+                        d = np.argwhere(~okpix)[0]
                         bad = f"field {f}: pixel {tuple(int(x) for x in d)} is {got[tuple(d)]!r}, expected {e[tuple(d)]!r}"
                         break
                 if bad:
